@@ -9,7 +9,7 @@ if ! git apply "$D"; then echo "SEED $P $(basename $D): patch does not apply"; e
 T=$(cargo test --lib --offline 2>&1 | grep -E '^test result' | head -1)
 R=""
 for c in $CHECKS; do
-  (cd /verif && timeout 1500 ./check $c --tier quick > ${SEEDOUT:-/tmp/mut/out}/$P/$(basename $D).$c.log 2>&1); rc=$?
+  (cd ${VERIF:-/verif} && timeout 1500 ./check $c --tier quick > ${SEEDOUT:-/tmp/mut/out}/$P/$(basename $D).$c.log 2>&1); rc=$?
   k=$(grep -m1 'key=' ${SEEDOUT:-/tmp/mut/out}/$P/$(basename $D).$c.log | cut -c1-160)
   R="$R $c:rc=$rc [$k]"
 done
